@@ -9,10 +9,47 @@ Section Hist.
 Variable A : Type.
 Variable H : A -> A -> A.
 Variable eqA : A -> A -> bool.
+(* chainhash.NewHash(TxHashes[i]) succeeds: the entry is exactly 32 bytes long.  The wire decoder only
+   produces such entries; through the exported field any length can be stored *)
+Variable okA : A -> bool.
+
+(* traverseAndExtract once more, keeping apart how it fails: both "overflowed" returns set FBad before
+   returning, the NewHash error returns without touching it.  TErr carries FBad at the moment of return *)
+Inductive tres := TOk (x : A) (s : st A) | TErr (bad : bool).
+
+Fixpoint traverse_h (n : N) (h : nat) (pos : N) (s : st A) : tres :=
+  match s_bits s with
+  | [] => TErr true                                  (* overflowed the bits array: FBad = true *)
+  | b :: bits' =>
+      let leaf (matched_here : bool) :=
+        match s_hashes s with
+        | [] => TErr true                            (* overflowed the hash array: FBad = true *)
+        | x :: hs' =>
+            if okA x
+            then TOk x (mk_st bits' hs' (if matched_here then s_match s ++ [x] else s_match s) (s_bad s))
+            else TErr (s_bad s)                      (* chainhash.NewHash: invalid hash length *)
+        end in
+      match h with
+      | O => leaf b
+      | S h' =>
+          if negb b then leaf false
+          else
+            match traverse_h n h' (pos * 2) (mk_st bits' (s_hashes s) (s_match s) (s_bad s)) with
+            | TErr e => TErr e
+            | TOk l s1 =>
+                if pos * 2 + 1 <? width n (N.of_nat h') then
+                  match traverse_h n h' (pos * 2 + 1) s1 with
+                  | TErr e => TErr e
+                  | TOk r s2 =>
+                      TOk (H l r) (mk_st (s_bits s2) (s_hashes s2) (s_match s2) (s_bad s2 || eqA l r))
+                  end
+                else TOk (H l l) s1
+            end
+      end
+  end.
 
 (* ExtractMatches on an object whose FBad is `bad` on entry: result and FBad on exit.
-   The early returns (count, sizes) leave FBad alone; both "overflowed" returns of
-   traverseAndExtract set it before returning, so an error out of the walk means FBad = true *)
+   The early returns (count, sizes) leave FBad alone *)
 Definition extract_hist (bad : bool) (n : N) (hashes : list A) (bits : list bool) : option (A * list A) * bool :=
   if n =? 0 then (None, bad)
   else if max_txs <? n then (None, bad)
@@ -22,9 +59,9 @@ Definition extract_hist (bad : bool) (n : N) (hashes : list A) (bits : list bool
     match height_loop 34 n 0 with
     | None => (None, bad)
     | Some h =>
-        match traverse A H eqA n (N.to_nat h) 0 (mk_st bits hashes [] bad) with
-        | None => (None, true)
-        | Some (root, s) =>
+        match traverse_h n (N.to_nat h) 0 (mk_st bits hashes [] bad) with
+        | TErr e => (None, e)
+        | TOk root s =>
             if s_bad s then (None, true)
             else
               let bits_used := lenL bits - lenL (s_bits s) in
@@ -41,7 +78,10 @@ Inductive hop :=
 | HExtract                               (* m.ExtractMatches() *)
 | HCount (n : N)                         (* m.PartialMerkleTree.TxTotalCount = n *)
 | HFlip (i : nat)                        (* VBits[i] = !VBits[i] *)
-| HHash (i j : nat) (mask : N).          (* TxHashes[i][j] ^= mask *)
+| HHash (i j : nat) (mask : N)           (* TxHashes[i][j] ^= mask *)
+| HAppend (i : nat) (b : N)              (* TxHashes[i] = append(TxHashes[i], b) *)
+| HDropLast (i : nat)                    (* TxHashes[i] = TxHashes[i][:len-1] *)
+| HEmpty (i : nat).                      (* TxHashes[i] = []byte{} *)
 
 Record hobj := mk_hobj { h_count : N; h_hashes : list bytes; h_bits : list bool; h_bad : bool }.
 
@@ -53,6 +93,8 @@ Fixpoint upd_nth {X} (l : list X) (i : nat) (f : X -> option X) : option (list X
   | x :: r, S i' => match upd_nth r i' f with Some r' => Some (x :: r') | None => None end
   end.
 
+Definition hash32 (h : bytes) : bool := (length h =? 32)%nat.
+
 Definition hobj_of (m : merkle_block) : hobj :=
   mk_hobj (mb_count m) (mb_hashes m) (bits_of_bytes (mb_flags m)) false.
 
@@ -60,7 +102,7 @@ Definition hobj_of (m : merkle_block) : hobj :=
 Definition hstep (o : hobj) (op : hop) : option (hobj * option (option (bytes * list bytes))) :=
   match op with
   | HExtract =>
-      let '(res, bad') := extract_hist bytes node_hash bytes_eqb (h_bad o) (h_count o) (h_hashes o) (h_bits o) in
+      let '(res, bad') := extract_hist bytes node_hash bytes_eqb hash32 (h_bad o) (h_count o) (h_hashes o) (h_bits o) in
       Some (mk_hobj (h_count o) (h_hashes o) (h_bits o) bad', Some res)
   | HCount n => Some (mk_hobj n (h_hashes o) (h_bits o) (h_bad o), None)
   | HFlip i =>
@@ -70,6 +112,21 @@ Definition hstep (o : hobj) (op : hop) : option (hobj * option (option (bytes * 
       end
   | HHash i j mask =>
       match upd_nth (h_hashes o) i (fun h => upd_nth h j (fun b => Some (b8 (N.lxor (n8 b) mask)))) with
+      | Some hs' => Some (mk_hobj (h_count o) hs' (h_bits o) (h_bad o), None)
+      | None => None
+      end
+  | HAppend i b =>
+      match upd_nth (h_hashes o) i (fun h => Some (h ++ [b8 b])) with
+      | Some hs' => Some (mk_hobj (h_count o) hs' (h_bits o) (h_bad o), None)
+      | None => None
+      end
+  | HDropLast i =>
+      match upd_nth (h_hashes o) i (fun h => match h with [] => None | _ :: _ => Some (removelast h) end) with
+      | Some hs' => Some (mk_hobj (h_count o) hs' (h_bits o) (h_bad o), None)
+      | None => None
+      end
+  | HEmpty i =>
+      match upd_nth (h_hashes o) i (fun _ => Some []) with
       | Some hs' => Some (mk_hobj (h_count o) hs' (h_bits o) (h_bad o), None)
       | None => None
       end
